@@ -161,6 +161,13 @@ Theorem c13_check_potential_sound : forall g edges cost s pi,
     forall r t, walk g Forward s r t -> exists pt, nth t pi None = Some pt /\ (pt <= route_sum cost r)%Q.
 Proof. exact check_potential_sound. Qed.
 
+(* with turn (access) costs the objective depends on the previous edge: certificate on edges *)
+Theorem c13_check_edge_potential_sound : forall g edges cost turn s pi,
+    gedges g = map (fun p => mkEdge (fst p) (snd p)) edges -> check_edge_potential edges cost turn s pi = true ->
+    forall c0 t, at_most_all c0 (potentials_into edges pi t) = true ->
+    forall r, r <> [] -> walk g Forward s r t -> (c0 <= route_total cost turn None r)%Q.
+Proof. exact certified_least_total. Qed.
+
 (* ---- Yen's algorithm: K = (k >= 2) is the known finding K_yens_k_ge_2 ---- *)
 Theorem c13_yens_outside_K : forall (C St : Type) clt cadd czero cfloor g (search : dir -> nat -> nat -> res (sresult C St))
     spur_search sim fuel k term s t, ~ (2 <= k) ->
@@ -250,6 +257,7 @@ Print Assumptions c13_model_no_spurious_error.
 Print Assumptions c13_check_routes_sound.
 Print Assumptions c13_check_dissimilar_sound.
 Print Assumptions c13_check_potential_sound.
+Print Assumptions c13_check_edge_potential_sound.
 Print Assumptions c13_yens_outside_K.
 Print Assumptions c13_yens_k1.
 Print Assumptions c13_yens_K_witness_panic.
